@@ -127,6 +127,14 @@ def gen_specs(rng, thorough):
             perms = list(itertools.permutations(sp)) if len(sp) <= 5 and thorough else [tuple(sp), tuple(reversed(sp))] + [tuple(rng.sample(sp, len(sp))) for _ in range(4)]
             for q in perms[: (120 if thorough else 6)]:
                 specs.append(list(q))
+    # (e) two different atoms almost or exactly on top of each other (the criterion has no lower distance limit), inside a cell and across a wall
+    for sep in (0.0, 0.001, 0.1, 0.39, 0.4, 0.41):
+        for els in (("C", "C"), ("S", "S"), ("N", "H"), ("O", "Zn")):
+            for base in ((0.7, 0.8, 0.9), (r3(2.51 - sep / 2), -2.51, 5.02)):
+                sp = [(els[0], base), (els[1], (r3(base[0] + sep), base[1], base[2])), ("C", (r3(base[0] + 1.4), r3(base[1] + 0.2), base[2]))]
+                if rng.random() < 0.5:
+                    sp.reverse()
+                specs.append(sp)
     # (c) a disulfide slid along x through a cell boundary
     for t in ([i * 0.01 for i in range(0, 260, 7)] if thorough else [i * 0.05 for i in range(0, 52, 5)]):
         specs.append([("S", (r3(1.0 + t), 0.1, 0.2)), ("C", (r3(1.0 + t - 1.8), 0.1, 0.2)), ("S", (r3(1.0 + t + 2.04), 0.1, 0.2)), ("C", (r3(1.0 + t + 3.84), 0.1, 0.2))])
@@ -291,6 +299,26 @@ def run(chk: common.Check):
                 if g.residue_type == "CYS" and not g.atom.cysteine_bridge and g.pka_value == 99.99:
                     found.append(("free-cys-9999", f"{name}: {g.label} reported 99.99 without a bridge", {"pdb": name}))
             chk.count(1, key=("pose", name, sh))
+
+    # the same with the cysteines NAMED in --titrate_only: naming a bridged cysteine must not make it titrate
+    for name in names:
+        text = structures.read(name)
+        mol, _ = structures.run(text)
+        conf = mol.conformations[mol.conformation_names[0]]
+        cys = [g for g in conf.groups if g.residue_type == "CYS"]
+        others = [g for g in conf.groups if g.titratable and g.residue_type in ("ASP", "GLU", "HIS", "LYS", "TYR")]
+        if not cys:
+            continue
+        sel = cys + rng.sample(others, min(4, len(others)))
+        opt = ",".join(sorted({f"{g.atom.chain_id}:{g.atom.res_num}{g.atom.icode.strip()}" for g in sel}))
+        mol2, _ = structures.run(text, ["-i", opt])
+        conf2 = mol2.conformations[mol2.conformation_names[0]]
+        chk.count(1, key=("titrate_only", name))
+        for g in conf2.groups:
+            if g.residue_type == "CYS" and g.atom.cysteine_bridge and (g.titratable or g.pka_value != 99.99):
+                found.append(("bridged-cys-titrated:titrate_only", f"{name} --titrate_only {opt}: {g.label} is in a disulfide bridge but titratable={g.titratable}, pKa={g.pka_value}",
+                              {"pdb": name, "options": ["-i", opt]}))
+                break
 
     uniq = {}
     for sig, what, rep in found:
